@@ -52,6 +52,35 @@ def eb_jobs(ctx, inv):
     return jobs
 
 
+def he_consts(**kw):
+    c = {'Threads': '<-ThreadsDef', 'Locs': '<-LocsDef', 'InitVal': '<-InitValDef', 'Ord': '<-OrdCode', 'Weak': False,
+         'NT': 2, 'K': 1, 'NG': 1, 'NCells': 1, 'NNodes': 3, 'MaxOps': 2, 'Roles': '<-RolesAll', 'EraLoop': True, 'Threshold': 0}
+    c.update(kw)
+    return c
+
+
+HE_ACTIONS = ['Begin', 'Touch', 'StartFlush', 'a_ld', 'a_era', 'a_link', 'a_set', 'a_fence', 'e_ldx', 'e_ld1', 'e_era', 'e_ld2', 'r_begin', 'r_st',
+              'op_done', 'n_era', 'x_cas', 'x_faa', 's_fence9', 's_ld', 's_fence10', 's_free']
+
+
+def he_jobs(ctx, inv):
+    """hazard_eras: eras published in slots, objects protected by the interval [construction era, retirement era]"""
+    q = ctx.quick
+    mc = lambda name, **kw: tlc_mc(ctx, name, 'HazardEras', he_consts(**kw.pop('c', {})), invariants=kw.pop('inv', inv), view='mcview', **kw)
+    jobs = [
+        lambda: mc('he_2t', workers=6, tmo=900, must_cover=HE_ACTIONS),
+        lambda: mc('he_reader_vs_replacer', c={'Roles': '<-RolesRW', 'MaxOps': 3, 'NNodes': 4}, workers=6, tmo=900),
+        lambda: mc('he_toggle_no_era_loop', c={'Roles': '<-RolesRW', 'MaxOps': 3, 'NNodes': 4, 'EraLoop': False}, inv=['Safe'], workers=4, expect='violation'),
+    ]
+    if not q:
+        jobs += [
+            lambda: mc('he_2t_shared_slots', c={'K': 2, 'NG': 2}, workers=12, tmo=3000, heap='24g', must_cover=['c_copy']),
+            lambda: mc('he_3t', c={'NT': 3, 'MaxOps': 1, 'NNodes': 4}, workers=12, tmo=3000, heap='24g'),
+            lambda: mc('he_2cells', c={'NCells': 2, 'NNodes': 4, 'K': 2, 'NG': 2, 'MaxOps': 2, 'Roles': '<-RolesRW'}, workers=12, tmo=3000, heap='24g'),
+        ]
+    return jobs
+
+
 def run_models(ctx, pid):
     q = ctx.quick
     inv = {'C01': ['Safe'], 'C02': ['Safe', 'NoLeak'], 'C18': ['Safe', 'SlotsConserved'], 'C17': ['Safe', 'NoLeak']}[pid]
@@ -78,5 +107,7 @@ def run_models(ctx, pid):
         ]
     if pid in ('C01', 'C02', 'C17'):
         jobs += eb_jobs(ctx, ['Safe'] if pid == 'C01' else inv)
+    if pid in ('C01', 'C02', 'C18'):
+        jobs += he_jobs(ctx, {'C01': ['Safe'], 'C02': ['Safe', 'NoLeak'], 'C18': ['Safe', 'SlotsConserved']}[pid])
     run_parallel(jobs, maxw=3)
     ctx.samples.append({'model': 'HazardPointer', 'constants': ctx.mc[0]['consts']})
